@@ -283,6 +283,37 @@ def matchFor (rx : String → String → Bool) (ps : List Pattern) (v : GoVal) :
   | none => .panic
 end Spec
 
+/-! ### the pinned (pre-fix) mechanisms, kept only for the refutation theorems -/
+
+/-- before 33c3a0d: `reflect.TypeOf(*ptr).Kind() == reflect.TypeOf(CompData{}).Kind()` — any pointer to a
+    struct was dereferenced (the harness' struct `S_ty` at address `a` holds payload `a / 10`) -/
+def preprocessPinned (inV : GoVal) : GoVal :=
+  if inV.justIsKind kPtr then
+    match inV with
+    | .compptr _ objs => .comp objs
+    | .atom (.ptr ty a) => if ty < 2 then .atom (.strct ty ((a / 10 : Nat) : Int)) else inV
+    | v => v
+  else inV
+
+/-- before c5a1b66: `(value).(string)` after the kind check — a defined string type panics -/
+def regexMatchesPinned (rx : String → String → Bool) (r : String) (v : GoVal) : Res Bool :=
+  if v.isNil || v.valueKind != kString then .ok false else
+  match v with
+  | .atom (.str false s) => .ok (rx r s)
+  | _ => .panic
+
+def matchForPinned (rx : String → String → Bool) : List Pattern → GoVal → Res (Nat × GoVal)
+  | [], _ => .panic
+  | p :: ps, inV =>
+    let value := preprocessPinned inV
+    let m := match p.pat with
+      | .regex r => regexMatchesPinned rx r value
+      | q => q.matches rx value
+    match m with
+    | .panic => .panic
+    | .ok true => .ok (p.eff, value)
+    | .ok false => matchForPinned rx ps inV
+
 /-- "equality patterns holding comparable values" -/
 def Pat.inScope : Pat → Bool
   | .equal pv => match pv.ty with | none => true | some t => t.comparable
